@@ -16,8 +16,8 @@ RULE = ('family = one generated pipeline with a prefetch / parallel-map stage; '
 PROBES = ['future_cancelled_while_pending', 'user_code_between_stop_and_return',
           'stop_before_first_example']
 BUDGET = {
-    'quick': {'families': 1400, 'wall_cap': 240, 'shrink_s': 15},
-    'thorough': {'families': 30000, 'wall_cap': 3000, 'shrink_s': 40},
+    'quick': {'families': 4200, 'wall_cap': 420, 'shrink_s': 15},
+    'thorough': {'families': 40000, 'wall_cap': 5400, 'shrink_s': 40},
 }
 
 STRICT_SCHED = {'policy': 'phased', 'params': {'phases': {
